@@ -135,6 +135,7 @@ def run(ctx):
             continue
         rl = wowm.RefLayouts(st["P"].model, scope_lookup(p))
         calc = wowm.SizeCalc(rl, cap_for(p))
+        calc.builtin_limits = measured_builtin_limits(g, p["scope"])
         try:
             lo, hi = calc.container(a)
         except wowm.WowmError as e:
@@ -212,11 +213,87 @@ def run(ctx):
             ctx.violate("leaf.limits", f"{crate}|{path}", f"{crate} {path} = {v}, the frozen leaf table says {want} ({what}); generator, runtime and checker must agree")
     ctx.rule("size.exact-guard", n, floor=GUARD_FLOOR, note=f"read_inner guards vs recomputed intervals ({n_const} constant-sized)")
     ctx.rule("leaf.limits", limits, floor=len(LEAF_CONSTS), note="leaf/capacity constants in generator and runtime vs frozen table")
+    check_mask_bounds(ctx, g)
     ctx.analysed.update({"programs": n})
     ctx.assume("leaf limits (CString <= 256, SizedCString <= 4+8000, masks, ...) are the codec's own definition of its domain; they are frozen in vlib/wowm.py and cross-checked, not derived")
     ctx.assume("the CMSG cap 10240 and the header capacities 0xFFFF / 0xFFFFFF are domain limits")
     ctx.assume("the sizes{} published in the IR are not inspected (producing the IR means running the generator)")
     return "translation_validation", EXPLANATION, {}
+
+
+MASK_TYPES = [
+    # (expansion, hand-written reader, generator constant for the minimum, for the maximum)
+    ("vanilla", "crate::manual::vanilla::aura_mask::AuraMask::read", "crate::parser::types::sizes::AURA_MASK_MIN_SIZE", "crate::parser::types::sizes::AURA_MASK_MAX_SIZE"),
+    ("tbc", "crate::manual::tbc::aura_mask::AuraMask::read", "crate::parser::types::sizes::AURA_MASK_MIN_SIZE", "crate::parser::types::sizes::AURA_MASK_MAX_SIZE"),
+    ("wrath", "crate::manual::wrath::aura_mask::AuraMask::read", "crate::parser::types::sizes::AURA_MASK_MIN_SIZE", "crate::parser::types::sizes::AURA_MASK_MAX_SIZE"),
+    ("wrath", "crate::manual::wrath::enchant_mask::EnchantMask::read", "crate::ENCHANT_MASK_SMALLEST_ALLOWED", "crate::ENCHANT_MASK_LARGEST_ALLOWED"),
+    ("wrath", "crate::manual::wrath::cache_mask::CacheMask::read", "crate::parser::types::sizes::CACHE_MASK_MIN", "crate::parser::types::sizes::CACHE_MASK_MAX"),
+]
+
+
+_MEASURED = {}
+
+
+def measured_builtin_limits(g, scope):
+    """{builtin name: (min, max)} measured from the hand-written readers of the expansion (all-zero / all-ones mask), for the types of
+    MASK_TYPES; types that cannot be measured keep the table's value"""
+    if scope in _MEASURED:
+        return _MEASURED[scope]
+    from ..minieval import Mini, Stream, Unsupported, Panic
+    FB = {c: g.f(c) for c in ("wow_world_messages", "wow_world_base")}
+    out = {}
+    for exp, reader, _cmin, _cmax in MASK_TYPES:
+        if exp != scope or FB["wow_world_messages"].fn(reader) is None:
+            continue
+        try:
+            got = []
+            for byte in (0x00, 0xFF):
+                st = Stream([byte] * 4096)
+                r = Mini(FB, "wow_world_messages").call_fn(reader, [st])
+                if not (isinstance(r, tuple) and r[0] == "Ok"):
+                    raise Unsupported("reader")
+                got.append(st.pos)
+            out[reader.split("::")[-2]] = (got[0], got[1])
+        except (Unsupported, Panic, KeyError, TypeError, ValueError, IndexError, AttributeError):
+            continue
+    _MEASURED[scope] = out
+    return out
+
+
+def check_mask_bounds(ctx, g):
+    """leaf.mask-bounds: the size bounds the generator assumes for the hand-written mask types are measured against the types' own readers,
+    per expansion: a reader given an all-zero mask consumes the smallest encoding, given an all-ones mask (every entry present) the largest.
+    The generator's minimum may not exceed the first, its maximum may not be below the second - otherwise the guards computed from them
+    reject valid messages."""
+    from ..minieval import Mini, Stream, Unsupported, Panic
+    FB = {c: g.f(c) for c in ("wow_world_messages", "wow_world_base")}
+    P = g.f("wow_message_parser")
+    n = 0
+    for exp, reader, cmin, cmax in MASK_TYPES:
+        fn = FB["wow_world_messages"].fn(reader)
+        lo_c, hi_c = P.const(cmin), P.const(cmax)
+        key = f"{exp}|{reader.split('::')[-2]}"
+        if fn is None or lo_c is None or hi_c is None or lo_c.get("val") is None or hi_c.get("val") is None:
+            ctx.violate("leaf.mask-bounds", key + "|anchor", f"{reader} or its generator constants {cmin} / {cmax} not found (anchor disappeared)")
+            continue
+        got = {}
+        try:
+            for name, byte in (("min", 0x00), ("max", 0xFF)):
+                st = Stream([byte] * 4096)
+                r = Mini(FB, "wow_world_messages").call_fn(reader, [st])
+                if not (isinstance(r, tuple) and r[0] == "Ok"):
+                    raise Unsupported(f"reader returns {str(r)[:60]}")
+                got[name] = st.pos
+        except (Unsupported, Panic) as e:
+            ctx.violate("leaf.mask-bounds", key + "|shape", f"{reader}: not interpretable — review ({e})", fn["file"], fn["line"])
+            continue
+        n += 1
+        if int(lo_c["val"]) > got["min"]:
+            ctx.violate("leaf.mask-bounds", key + f"|min|{lo_c['val']}>{got['min']}", f"{exp} {reader.split('::')[-2]}: the generator assumes at least {lo_c['val']} bytes ({cmin}), the type's reader consumes {got['min']} for an empty mask", fn["file"], fn["line"])
+        if int(hi_c["val"]) < got["max"]:
+            ctx.violate("leaf.mask-bounds", key + f"|max|{hi_c['val']}<{got['max']}", f"{exp} {reader.split('::')[-2]}: the generator assumes at most {hi_c['val']} bytes ({cmax}), the type's reader consumes {got['max']} when every entry of the mask is present: "
+                        f"the maximum body size of every {exp} message that contains the type is computed too small and the size guard rejects valid encodings", fn["file"], fn["line"])
+    ctx.rule("leaf.mask-bounds", n, floor=5, note="hand-written mask types per expansion: smallest / largest encoding measured from the reader vs the generator's constants")
 
 
 LEAF_CONSTS = [
